@@ -54,21 +54,21 @@ theorem argsLoop_rparen (fuel size : Nat) (r : JStr) : argsLoop fuel size (RPARE
 
 theorem argsLoop_wide {c : Nat} (hc : c = cD ∨ c = cJ) (fuel size : Nat) (rest : JStr) :
     argsLoop (fuel + 1) size (c :: rest) =
-      if size + 2 > 255 then .overflow else argsLoop fuel (size + 2) rest := by
+      if size + 2 > 255 then .err else argsLoop fuel (size + 2) rest := by
   have h1 : c ≠ RPAREN := by rcases hc with rfl | rfl <;> decide
   simp only [argsLoop, if_neg h1, if_pos hc]
 
 theorem argsLoop_narrow {c : Nat} (h1 : c ≠ RPAREN) (h2 : ¬(c = cD ∨ c = cJ)) (h3 : c ≠ LBRACKET) (h4 : c ≠ cL)
     (fuel size : Nat) (rest : JStr) :
     argsLoop (fuel + 1) size (c :: rest) =
-      if size + 1 > 255 then .overflow else argsLoop fuel (size + 1) rest := by
+      if size + 1 > 255 then .err else argsLoop fuel (size + 1) rest := by
   simp only [argsLoop, if_neg h1, if_neg h2, skipBrackets, if_neg h3, if_neg h4]
 
 /-- after the brackets (at least one, or none if the first character is no `D`/`J`/`)`): one slot -/
 theorem argsLoop_base {p : JStr} {b : Base} (hb : BaseTy p b) (d : Nat) (fuel size : Nat) (rest : JStr)
     (hd : d = 0 → ∀ q, b ≠ .prim q) :
     argsLoop (fuel + 1) size (List.replicate d LBRACKET ++ p ++ rest) =
-      if size + 1 > 255 then .overflow else argsLoop fuel (size + 1) rest := by
+      if size + 1 > 255 then .err else argsLoop fuel (size + 1) rest := by
   obtain ⟨c0, rest0, hc0, hcb, _, hcp⟩ := BaseTy_head hb
   -- the first character of the whole parameter is neither `)` nor `D`/`J`
   have hskip : skipBrackets (List.replicate d LBRACKET ++ p ++ rest) = p ++ rest := by
@@ -100,7 +100,7 @@ theorem argsLoop_base {p : JStr} {b : Base} (hb : BaseTy p b) (d : Nat) (fuel si
 
 theorem argsLoop_step {s : JStr} {t : Ty} (hf : FieldTy s t) (fuel size : Nat) (rest : JStr) :
     argsLoop (fuel + 1) size (s ++ rest) =
-      if size + t.slots > 255 then .overflow else argsLoop fuel (size + t.slots) rest := by
+      if size + t.slots > 255 then .err else argsLoop fuel (size + t.slots) rest := by
   have hfl := flat_of_FieldTy hf
   cases t with
   | prim q =>
@@ -123,7 +123,7 @@ theorem argsLoop_step {s : JStr} {t : Ty} (hf : FieldTy s t) (fuel size : Nat) (
 theorem argsLoop_params {ps : JStr} {ts : List Ty} (h : ParamsTy ps ts) :
     ∀ (fuel size : Nat) (r : JStr), ps.length ≤ fuel → size ≤ 255 →
       argsLoop fuel size (ps ++ RPAREN :: r) =
-        if size + slotsSum ts ≤ 255 then .ok (size + slotsSum ts) else .overflow := by
+        if size + slotsSum ts ≤ 255 then .ok (size + slotsSum ts) else .err := by
   induction h with
   | nil =>
     intro fuel size r _ hs
